@@ -288,6 +288,15 @@ pub(crate) enum Count {
     },
 }
 
+/// The largest array length that a transformed count field can describe.
+#[derive(Clone, Copy, Debug)]
+pub(crate) enum LenLimit {
+    /// the field stores `len + n`
+    MaxMinus(usize),
+    /// the field stores `len * 2`
+    HalfMax,
+}
+
 #[derive(Clone, Debug)]
 pub(crate) enum CountArg {
     Field(syn::Ident),
@@ -1605,6 +1614,21 @@ impl Count {
             Some(ident)
         } else {
             None
+        }
+    }
+
+    /// For counts of the form `subtract($field, n)` or `half($field)`, the
+    /// field and the largest array length its type can describe.
+    pub(crate) fn field_with_len_limit(&self) -> Option<(&syn::Ident, LenLimit)> {
+        let Count::Complicated { args, xform } = self else {
+            return None;
+        };
+        match (xform, args.as_slice()) {
+            (CountTransform::Sub, [CountArg::Field(ident), CountArg::Literal(n)]) => {
+                Some((ident, LenLimit::MaxMinus(n.base10_parse().ok()?)))
+            }
+            (CountTransform::Half, [CountArg::Field(ident)]) => Some((ident, LenLimit::HalfMax)),
+            _ => None,
         }
     }
 
